@@ -305,9 +305,26 @@ impl Check {
         let deadline = self.start + std::time::Duration::from_secs_f64(self.wall_cap_s);
         let name = scn.name();
 
+        // hang watchdog: every worker publishes the history it is executing; a history that does
+        // not return within HANG_LIMIT is a non-terminating execution (busy loop inside one poll)
+        let slots: Vec<Mutex<Option<(Vec<usize>, Instant)>>> = (0..self.threads).map(|_| Mutex::new(None)).collect();
+        let finished = AtomicUsize::new(0);
+        let hang_limit = std::time::Duration::from_secs(
+            std::env::var("VERIF_HANG_LIMIT_S").ok().and_then(|s| s.parse().ok()).unwrap_or(20),
+        );
+        let id = self.id.clone();
+        let alphabet_for_hang = alphabet.clone();
+
         std::thread::scope(|s| {
-            for _ in 0..self.threads {
-                s.spawn(|| {
+            for w in 0..self.threads {
+                let slots = &slots;
+                let finished = &finished;
+                let cursor = &cursor;
+                let stop = &stop;
+                let items = &items;
+                let total_acc = &total_acc;
+                let name = &name;
+                s.spawn(move || {
                     let mut acc = Acc::default();
                     let mut counter: u64 = 0;
                     loop {
@@ -318,7 +335,9 @@ impl Check {
                         let mut path = items[i].clone();
                         // iterative DFS over the remaining depth
                         dfs(scn, n, depth, &mut path, &mut |p: &[usize]| {
+                            *slots[w].lock().unwrap() = Some((p.to_vec(), Instant::now()));
                             let r = scn.run(p, false);
+                            *slots[w].lock().unwrap() = None;
                             counter += 1;
                             if counter % 64 == 0 {
                                 let r2 = scn.run(p, false);
@@ -338,7 +357,47 @@ impl Check {
                         });
                     }
                     total_acc.lock().unwrap().merge(acc);
+                    finished.fetch_add(1, Ordering::SeqCst);
                 });
+            }
+            // monitor
+            while finished.load(Ordering::SeqCst) < self.threads {
+                std::thread::sleep(std::time::Duration::from_millis(50));
+                for slot in &slots {
+                    let stuck = match &*slot.lock().unwrap() {
+                        Some((p, t0)) if t0.elapsed() > hang_limit => Some(p.clone()),
+                        _ => None,
+                    };
+                    if let Some(p) = stuck {
+                        let sig = (format!("{id}.H0"), "history-does-not-terminate".to_string());
+                        let replay = json!({
+                            "property": id,
+                            "kind": "scenario",
+                            "scenario": scn.name(),
+                            "clause": sig.0,
+                            "key": sig.1,
+                            "detail": format!("a single history did not return within {:?}: the task spins without yielding", hang_limit),
+                            "path": p,
+                            "events": p.iter().map(|i| alphabet_for_hang[*i].clone()).collect::<Vec<_>>(),
+                            "transcript": ["(not replayable in-process: the execution does not terminate)"],
+                        });
+                        let dir = format!("/verif/replays/{id}");
+                        let _ = std::fs::create_dir_all(&dir);
+                        let file = format!("{dir}/hang-{:016x}.json", fnv_str(&format!("{}{:?}", scn.name(), p)));
+                        let _ = std::fs::write(&file, serde_json::to_string_pretty(&replay).unwrap());
+                        println!("VIOLATION property={id} replay={file}");
+                        println!("  clause={} key={} detail=history {:?} of {} does not terminate", sig.0, sig.1, p, scn.name());
+                        let ev = json!({
+                            "property_id": id, "tier": self.tier, "seed": self.seed, "level": "model_checking",
+                            "coverage": {"states": 1, "transitions": 1, "traces_validated_against_impl": 0,
+                                "samples": [replay], "exhaustive": false,
+                                "caps_hit": ["aborted: non-terminating history"]},
+                            "wall_s": self.start.elapsed().as_secs_f64(), "violations": 1,
+                        });
+                        let _ = std::fs::write(format!("/verif/evidence/{id}.json"), serde_json::to_string_pretty(&ev).unwrap());
+                        std::process::exit(1);
+                    }
+                }
             }
         });
 
@@ -407,9 +466,21 @@ impl Check {
         let deadline = self.start + std::time::Duration::from_secs_f64(self.wall_cap_s);
         let name = space.name();
         const BATCH: usize = 64;
+        let slots: Vec<Mutex<Option<(usize, Instant)>>> = (0..self.threads).map(|_| Mutex::new(None)).collect();
+        let finished = AtomicUsize::new(0);
+        let hang_limit = std::time::Duration::from_secs(
+            std::env::var("VERIF_HANG_LIMIT_S").ok().and_then(|s| s.parse().ok()).unwrap_or(20),
+        );
+        let id = self.id.clone();
         std::thread::scope(|s| {
-            for _ in 0..self.threads {
-                s.spawn(|| {
+            for w in 0..self.threads {
+                let slots = &slots;
+                let finished = &finished;
+                let cursor = &cursor;
+                let stop = &stop;
+                let total_acc = &total_acc;
+                let name = &name;
+                s.spawn(move || {
                     let mut acc = Acc::default();
                     loop {
                         let base = cursor.fetch_add(BATCH, Ordering::SeqCst);
@@ -417,7 +488,9 @@ impl Check {
                             break;
                         }
                         for i in base..(base + BATCH).min(total) {
+                            *slots[w].lock().unwrap() = Some((i, Instant::now()));
                             let r = space.run(i, false);
+                            *slots[w].lock().unwrap() = None;
                             if i % 64 == 0 {
                                 let r2 = space.run(i, false);
                                 acc.determinism_checks += 1;
@@ -433,7 +506,39 @@ impl Check {
                         }
                     }
                     total_acc.lock().unwrap().merge(acc);
+                    finished.fetch_add(1, Ordering::SeqCst);
                 });
+            }
+            while finished.load(Ordering::SeqCst) < self.threads {
+                std::thread::sleep(std::time::Duration::from_millis(50));
+                for slot in &slots {
+                    let stuck = match &*slot.lock().unwrap() {
+                        Some((i, t0)) if t0.elapsed() > hang_limit => Some(*i),
+                        _ => None,
+                    };
+                    if let Some(i) = stuck {
+                        let replay = json!({
+                            "property": id, "kind": "case", "space": space.name(), "clause": format!("{id}.H0"),
+                            "key": "case-does-not-terminate",
+                            "detail": format!("case did not return within {:?}: the code under test spins without yielding", hang_limit),
+                            "index": i, "transcript": ["(not replayable in-process: the execution does not terminate)"],
+                        });
+                        let dir = format!("/verif/replays/{id}");
+                        let _ = std::fs::create_dir_all(&dir);
+                        let file = format!("{dir}/hang-{:016x}.json", fnv_str(&format!("{}{}", space.name(), i)));
+                        let _ = std::fs::write(&file, serde_json::to_string_pretty(&replay).unwrap());
+                        println!("VIOLATION property={id} replay={file}");
+                        println!("  clause={id}.H0 key=case-does-not-terminate detail=case #{i} of {} does not terminate", space.name());
+                        let ev = json!({
+                            "property_id": id, "tier": self.tier, "seed": self.seed, "level": "model_checking",
+                            "coverage": {"states": 1, "transitions": 1, "traces_validated_against_impl": 0,
+                                "samples": [replay], "exhaustive": false, "caps_hit": ["aborted: non-terminating case"]},
+                            "wall_s": self.start.elapsed().as_secs_f64(), "violations": 1,
+                        });
+                        let _ = std::fs::write(format!("/verif/evidence/{id}.json"), serde_json::to_string_pretty(&ev).unwrap());
+                        std::process::exit(1);
+                    }
+                }
             }
         });
         if stop.load(Ordering::SeqCst) {
